@@ -35,6 +35,14 @@ class Contract(object):
         # facts true of every Python value of the parameter types (e.g. "a set object is finite"): assumed at entry, never a proof
         # obligation of callers (they are not preconditions); listed as assumptions in the evidence
         self.type_invariants = list(type_invariants)
+        # the only hints that are assumed without proof are instances of a least-fixpoint schema or of the Finset fact card_lt_card (exit_hints), and
+        # finiteness of Python sets (type_invariants); anything else in these slots is a contract error
+        import re as _re
+        for L_ in (loops or {}).values():
+            for h_ in L_.get('exit_hints', []):
+                assert _re.match(r'^(\w+_least\(|all\(card_strict_subset\()', h_), 'exit hint is not a schema instance: %s' % h_
+        for h_ in self.type_invariants:
+            assert _re.match(r'^(fin\(|all\(fin\()', h_), 'type invariant is not a finiteness fact: %s' % h_
         # {field: place}: the result's field is (possibly) the very object held in `place` (e.g. {'Sigma': 'self.Sigma'}), a mutable set that
         # later calls of methods of the same object only ever enlarge.  Values obtained earlier are then re-read with an enlarged field.
         self.result_shares = dict(result_shares or {})
